@@ -265,21 +265,32 @@ def SyGate.op : SyGate → Option Op
 
 /-- one iteration of `SympyExporter.export`; the factors are multiplied on the left, so the
 exported product is the reverse of the emitted list (times `Qubit("0"*n)` in circuit mode) -/
+def sympyMcx (w : List Nat) : Step SyGate :=
+  match w.getLast? with
+  | none => .fail "IndexError"
+  | some t =>
+    -- sympy's `CGate` needs at least one control (`max()` of an empty sequence)
+    if w.dropLast = [] then .fail "ValueError" else .emit (.CGateX w.dropLast t)
+
 def sympyStep (g : AGate) : Step SyGate :=
-  match g.cls, g.wires with
-  | .X, w :: _ => .emit (.X w)
-  | .H, w :: _ => .emit (.H w)
-  | .CX, a :: b :: _ => .emit (.CNOT a b)
-  | .Swap, a :: b :: _ => .emit (.SWAP a b)
-  | .X, _ | .H, _ | .CX, _ | .Swap, _ => .fail "IndexError"
-  | .CCX, w | .MCX _, w =>
-    match w.getLast? with
-    | none => .fail "IndexError"
-    | some t =>
-      -- sympy's `CGate` needs at least one control (`max()` of an empty sequence)
-      if w.dropLast = [] then .fail "ValueError" else .emit (.CGateX w.dropLast t)
-  | .Barrier, _ | .Nop, _ => .skip
-  | _, _ => .fail "unhandled"
+  match g.cls with
+  | .X => match g.wires with
+    | w :: _ => .emit (.X w)
+    | [] => .fail "IndexError"
+  | .H => match g.wires with
+    | w :: _ => .emit (.H w)
+    | [] => .fail "IndexError"
+  | .CX => match g.wires with
+    | a :: b :: _ => .emit (.CNOT a b)
+    | _ => .fail "IndexError"
+  | .Swap => match g.wires with
+    | a :: b :: _ => .emit (.SWAP a b)
+    | _ => .fail "IndexError"
+  | .CCX => sympyMcx g.wires
+  | .MCX _ => sympyMcx g.wires
+  | .Barrier => .skip
+  | .Nop => .skip
+  | _ => .fail "unhandled"
 
 def exportSympy (gs : List AGate) : Except String (List SyGate) :=
   runSteps sympyStep gs
@@ -485,9 +496,9 @@ def parseDecl (t : Text) : Option QGateDecl :=
     | _ => none
 
 /-- position of a name among the formals = index of the qubit `q[i]` it is bound to by the call -/
-def indexOfName (formals : List Text) (nm : Text) : Option Nat :=
-  let i := formals.findIdx (· = nm)
-  if i < formals.length then some i else none
+def indexOfName : List Text → Text → Option Nat
+  | [], _ => none
+  | f :: fs, nm => if f = nm then some 0 else (indexOfName fs nm).map (· + 1)
 
 /-- number of leading `c`s and the rest -/
 def stripCs : Text → Nat × Text
@@ -530,6 +541,18 @@ def gateTOp (g : AGate) : Option TOp :=
         | _ => none }
 
 /-! ## well-formedness and triggers -/
+
+/-- a token of the emitted text: non-empty, no blank, newline or parenthesis -/
+def tokenOK (t : Text) : Bool :=
+  !t.isEmpty && t.all (fun c => c != ' ' && c != '\n' && c != '(')
+
+def ptextOK : Option Text → Bool
+  | none => true
+  | some pt => pt.all (fun c => c != ' ' && c != '\n')
+
+def lineOK (l : QLine) : Bool :=
+  tokenOK l.gname && ptextOK l.ptext && !l.args.isEmpty && l.args.all tokenOK
+
 
 /-- what `QCircuit.append` guarantees plus in-range wires; parameters only where the gate takes
 one (`P`, `CP`, `MCtrl(P)`), and then a numeric literal -/
